@@ -190,18 +190,10 @@ func TestPropRecycle(t *testing.T) {
 				if !bytes.Equal(gclass, e.class) || !bytes.Equal(gbody, e.body) {
 					fail("foreign-bytes-in-sent-frame:body-or-class", "exchange %d went out with class %q body %s; its own are class %q body %s", e.no, ev.Short(gclass), ev.Short(gbody), ev.Short(e.class), ev.Short(e.body))
 				}
-				want := fmt.Sprint(codec.SortKVs(append([]codec.KV(nil), e.hdr...)))
-				if e.mods == 0 {
-					want = fmt.Sprint(e.hdr) // untouched: byte order as received
-					if fmt.Sprint(gk) != want {
-						want = fmt.Sprint(codec.SortKVs(append([]codec.KV(nil), e.hdr...)))
-						gk = codec.SortKVs(gk)
-					}
-				} else {
-					gk = codec.SortKVs(gk)
-				}
-				if fmt.Sprint(gk) != want {
-					fail("foreign-bytes-in-sent-frame:headers", "exchange %d went out with header pairs %s; its own (after its %d modifications) are %s", e.no, ev.Short([]byte(fmt.Sprint(gk))), e.mods, ev.Short([]byte(want)))
+				// compared as sorted lists of pairs (a re-encoded block may order its pairs differently)
+				want := kvString(codec.SortKVs(append([]codec.KV(nil), e.hdr...)))
+				if got := kvString(codec.SortKVs(gk)); got != want {
+					fail("foreign-bytes-in-sent-frame:headers", "exchange %d went out with header pairs %s; its own (after its %d modifications) are %s", e.no, clipStr(got), e.mods, clipStr(want))
 				}
 			case "finish":
 				i := rapid.IntRange(0, len(live)-1).Draw(rt, "which")
@@ -223,4 +215,22 @@ func TestPropRecycle(t *testing.T) {
 		ev.Case(partRecycle, nontrivial && sent > 0, []byte(p+"|"+strings.Join(history, ";")), func() interface{} { return history }, "proto:"+p)
 		ev.Extra(partRecycle, "frames-sent", int64(sent))
 	})
+}
+
+func kvString(kvs []codec.KV) string {
+	var b strings.Builder
+	for i, kv := range kvs {
+		if i > 0 {
+			b.WriteString(" | ")
+		}
+		fmt.Fprintf(&b, "%q=%q", string(kv.K), string(kv.V)) // complete: this rendering is what is compared
+	}
+	return "[" + b.String() + "]"
+}
+
+func clipStr(s string) string {
+	if len(s) > 400 {
+		return s[:400] + fmt.Sprintf("...(%d bytes)", len(s))
+	}
+	return s
 }
